@@ -243,6 +243,12 @@ func runPipe(t *core.T, faults bool) {
 		pl.start(t, k)
 	}
 	k.Run()
+	if k.Stuck {
+		// the kernel saw neither a scheduling event nor CPU use for seconds (a starved or
+		// stopped process; nothing in this engine blocks outside the kernel): inconclusive
+		t.Probe("run_abandoned_no_progress_and_no_cpu")
+		return
+	}
 	if t.Failed() {
 		return
 	}
@@ -309,7 +315,7 @@ func (pl *pipeline) start(t *core.T, k *kernel.Kernel) {
 			if !useEWKB {
 				effSRID = 0
 			}
-			norm, hasBytes := m.Normalise(x.g)
+			norm, hasBytes := m.Normalise(m.Clone(x.g))
 			writesBefore, faultsBefore := pipe.Writes, pipe.WriteFailures
 			var err error
 			panicked := t.Guard("Encoder.Encode", func() {
@@ -508,7 +514,7 @@ func RunPaths(t *core.T) {
 	if !s.Chance(1, 4, "nosrid") {
 		srid = drawSRID(s)
 	}
-	norm, hasBytes := m.Normalise(g)
+	norm, hasBytes := m.Normalise(m.Clone(g))
 	t.Logf("value %s order=%s srid=%d", gen.Describe(g), orderNames[oi], srid)
 	t.State(fmt.Sprintf("paths/%s/%s/%s", shape(norm), orderNames[oi], sridClass(srid)))
 
@@ -808,6 +814,111 @@ func RunPaths(t *core.T) {
 	if !t.Failed() && s.Chance(1, 2, "two-args?") {
 		twoValuers(t, g, srid)
 	}
+	if !t.Failed() && s.Chance(1, 2, "foreign?") {
+		foreignBytes(t, norm, srid)
+	}
+}
+
+// foreignBytes: the same value written by another producer - the harness's own
+// writer, which gives every member of a multi geometry or collection its own
+// byte order (the format allows it; orb's encoder never does it). Every decode
+// path must return the value for these bytes too.
+func foreignBytes(t *core.T, norm orb.Geometry, srid int) {
+	s := t.Src
+	s.Begin("foreign")
+	defer s.End()
+	mixed := false
+	first, n := true, 0
+	var firstLE bool
+	data := m.Encode(norm, srid, func() bool {
+		le := s.Bool("le")
+		n++
+		if n > 64 {
+			le = firstLE // big values: the first members decide, the rest follow the outermost order
+		}
+		if first {
+			first, firstLE = false, le
+		} else if le != firstLE {
+			mixed = true
+		}
+		return le
+	})
+	if mixed {
+		t.Probe("mixed_byte_order_message")
+	}
+	t.Logf("foreign encoding (mixed orders: %v) %x", mixed, clip(data, 120))
+	check := func(api string, got orb.Geometry, gotSRID, wantSRID int, err error) bool {
+		if err != nil {
+			t.Violate("foreign-roundtrip", api, "", "%s of a foreign encoding of %s (members in their own byte orders: %v, srid %d) failed: %v\n  %x", api, gen.Describe(norm), mixed, srid, err, clip(data, 200))
+			return false
+		}
+		if !m.Equal(got, norm) {
+			t.Violate("foreign-roundtrip", api, "", "%s: a foreign encoding of %s (members in their own byte orders: %v) decoded as %s\n  %x", api, gen.Describe(norm), mixed, gen.Describe(got), clip(data, 200))
+			return false
+		}
+		if gotSRID != wantSRID {
+			t.Violate("foreign-srid", api, "", "%s: written srid %d, decoded %d (%s)", api, wantSRID, gotSRID, gen.Describe(norm))
+			return false
+		}
+		t.Op()
+		return true
+	}
+	var got orb.Geometry
+	var gs int
+	var err error
+	if t.Guard("wkb.Unmarshal", func() { got, err = wkb.Unmarshal(cp(data)) }) || !check("wkb.Unmarshal", got, 0, 0, err) {
+		return
+	}
+	if t.Guard("ewkb.Unmarshal", func() { got, gs, err = ewkb.Unmarshal(cp(data)) }) || !check("ewkb.Unmarshal", got, gs, srid, err) {
+		return
+	}
+	r := simio.NewReader(t, cp(data), simio.DrawReaderFaults(s))
+	if t.Guard("ewkb.Decoder.Decode", func() { got, gs, err = ewkb.NewDecoder(r).Decode() }) || !check("ewkb.Decoder.Decode", got, gs, srid, err) {
+		return
+	}
+	r2 := simio.NewReader(t, cp(data), simio.DrawReaderFaults(s))
+	if t.Guard("wkb.Decoder.Decode", func() { got, err = wkb.NewDecoder(r2).Decode() }) || !check("wkb.Decoder.Decode", got, 0, 0, err) {
+		return
+	}
+	// scanners, every destination, one drawn framing
+	db := simdb.DB()
+	kind := s.Intn(2, "scanner")
+	framing := s.Intn(4, "framing")
+	for d := 0; d < m.NumDest; d++ {
+		dst := m.NewDest(d)
+		sc := newScanner(kind, dst)
+		api := []string{"wkb.Scanner", "ewkb.Scanner"}[kind] + "(foreign," + m.DestNames[d] + ")"
+		simdb.S = simdb.State{Cell: data, HasCell: true, Framing: framing}
+		var serr error
+		if t.Guard(api, func() { serr = db.QueryRow("SELECT g FROM t").Scan(sc) }) {
+			return
+		}
+		want, wrongKind := m.Coerce(d, norm)
+		sg, ssrid, _ := scanned(sc)
+		if wrongKind {
+			if !errors.Is(serr, wkb.ErrIncorrectGeometry) && !errors.Is(serr, ewkb.ErrIncorrectGeometry) {
+				t.Violate("coercion-error", api, "", "scanning a foreign encoding of %s into %s must fail with the incorrect-geometry error, got (%s, %v)", gen.Describe(norm), m.DestNames[d], gen.Describe(sg), serr)
+				return
+			}
+			continue
+		}
+		if serr != nil || !m.Equal(sg, want) || (dst != nil && !m.Equal(m.DestValue(dst), want)) {
+			t.Violate("foreign-scan", api, "", "a foreign encoding of %s (members in their own byte orders: %v): scanner.Geometry %s, destination %s, want %s, err %v\n  %x", gen.Describe(norm), mixed, gen.Describe(sg), gen.Describe(m.DestValue(dst)), gen.Describe(want), serr, clip(data, 200))
+			return
+		}
+		if kind == 1 && ssrid != srid {
+			t.Violate("foreign-srid", api, "", "scanner.SRID is %d, the bytes carry %d", ssrid, srid)
+			return
+		}
+		t.Op()
+	}
+}
+
+func clip(b []byte, n int) []byte {
+	if len(b) > n {
+		return b[:n]
+	}
+	return b
 }
 
 // twoValuers: one statement with two geometry arguments. database/sql calls
@@ -841,7 +952,7 @@ func twoValuers(t *core.T, first orb.Geometry, srid int) {
 		return
 	}
 	for i, g := range []orb.Geometry{first, second} {
-		norm, ok := m.Normalise(g)
+		norm, ok := m.Normalise(m.Clone(g))
 		cell := simdb.S.Cells[i]
 		if !ok {
 			if cell != nil {
@@ -871,6 +982,11 @@ func scannerReuse(t *core.T, first orb.Geometry) {
 	o := gen.DefaultOpts()
 	o.TopNil = false
 	second := gen.Geometry(s, o)
+	if s.Bool("variant") {
+		// the usual table: rows of one kind; the second value is a smaller variant of the first
+		// (so it would fit into whatever memory the first result occupies)
+		second = smallerVariant(m.Clone(first), orb.Point{gen.Coord(s, o.Mode), gen.Coord(s, o.Mode)})
+	}
 	d := s.Intn(m.NumDest, "dest")
 	kind := s.Intn(2, "scanner")
 	db := simdb.DB()
@@ -882,8 +998,10 @@ func scannerReuse(t *core.T, first orb.Geometry) {
 	if s.Bool("both") {
 		srids[0], srids[1] = drawSRID(s), drawSRID(s)
 	}
+	// what the first row gave the caller, kept while the second row is scanned
+	var keptSG, keptDst, keptWant orb.Geometry
 	for i, g := range []orb.Geometry{first, second} {
-		norm, ok := m.Normalise(g)
+		norm, ok := m.Normalise(m.Clone(g))
 		if !ok {
 			return
 		}
@@ -914,8 +1032,78 @@ func scannerReuse(t *core.T, first orb.Geometry) {
 			t.Violate("scan-reuse", api, "", "row %d of a reused scanner: value %s, want %s, scanner.Geometry %s, destination %s, err %v", i, gen.Describe(norm), gen.Describe(want), gen.Describe(sg), gen.Describe(m.DestValue(dst)), serr)
 			return
 		}
+		if i == 0 {
+			keptSG, keptWant = sg, want
+			if dst != nil {
+				keptDst = m.DestValue(dst)
+			}
+		} else if keptWant != nil {
+			if !m.Equal(keptSG, keptWant) || (keptDst != nil && !m.Equal(keptDst, keptWant)) {
+				t.Violate("result-stable", api, "", "the value the first row gave the caller changed when the second row was scanned into the same destination: now %s / %s, was %s", gen.Describe(keptSG), gen.Describe(keptDst), gen.Describe(keptWant))
+				return
+			}
+		}
 		t.Op()
 	}
+}
+
+// smallerVariant changes g (a private copy) into a value of the same kind with
+// no more elements anywhere and a different first coordinate.
+func smallerVariant(g orb.Geometry, p orb.Point) orb.Geometry {
+	pts := func(x []orb.Point) []orb.Point {
+		if len(x) > 2 {
+			x = x[:len(x)-1]
+		}
+		if len(x) > 0 {
+			x[0] = p
+		}
+		return x
+	}
+	switch x := g.(type) {
+	case orb.Point:
+		return p
+	case orb.MultiPoint:
+		return orb.MultiPoint(pts(x))
+	case orb.LineString:
+		return orb.LineString(pts(x))
+	case orb.Ring:
+		return orb.Ring(pts(x))
+	case orb.MultiLineString:
+		if len(x) > 1 {
+			x = x[:len(x)-1]
+		}
+		for i := range x {
+			x[i] = orb.LineString(pts(x[i]))
+		}
+		return x
+	case orb.Polygon:
+		if len(x) > 1 {
+			x = x[:len(x)-1]
+		}
+		for i := range x {
+			x[i] = orb.Ring(pts(x[i]))
+		}
+		return x
+	case orb.MultiPolygon:
+		if len(x) > 1 {
+			x = x[:len(x)-1]
+		}
+		for i := range x {
+			x[i] = smallerVariant(x[i], p).(orb.Polygon)
+		}
+		return x
+	case orb.Collection:
+		if len(x) > 1 {
+			x = x[:len(x)-1]
+		}
+		for i := range x {
+			x[i] = smallerVariant(x[i], p)
+		}
+		return x
+	case orb.Bound:
+		return orb.Bound{Min: p, Max: x.Max}
+	}
+	return g
 }
 
 func newScanner(kind int, dst interface{}) interface{} {
